@@ -476,6 +476,18 @@ pub fn run_sockets(ctx: &Ctx, which: &str) {
                 taken += 1;
             }
             for n in 0..per.saturating_sub(if tier == Tier::Quick { sys_take } else { 0 }) {
+                if n % 20 == 7 {
+                    // a peer that sends requests and is gone before their replies can be written:
+                    // the failed writes are that connection's business only; whoever is served
+                    // next by the same worker must see nothing of it
+                    if let Ok(mut v) = RawConn::connect(&address) {
+                        let reqs = random_seq(&mut rng, &[Kind::Echo, Kind::DescKnown, Kind::Stream2, Kind::GetInfo], 4, &format!("van{}n{}_", w, n), 0);
+                        let _ = v.write_all(&seq_bytes(&reqs));
+                        v.shutdown_both();
+                        drop(v);
+                        ctx.count("peers_that_vanished_before_their_replies", 1);
+                    }
+                }
                 let len = rng.range(3, 24);
                 let reqs = random_seq(&mut rng, ALL_KINDS, len, &format!("w{}n{}_", w, n), if which == "C04" { 40 } else { 15 });
                 let d = rng.range(1, len);
